@@ -18,7 +18,7 @@ class BufPlan:
         p, c = dump.dump_mir("compio-io", [], tag="compio-io")
         self.checker_cmd = c + " ;; mirsym/c11_buffer.py"
         self.max_inner, self.pendings = (3, 1) if tier == "quick" else (4, 2)
-        self.B = c11_buffer.BufModel(p, max_inner=self.max_inner, pendings=self.pendings, copy_inner=6 if tier == "quick" else 8)
+        self.B = c11_buffer.BufModel(p, max_inner=self.max_inner, pendings=self.pendings, copy_inner=6 if tier == "quick" else 7)
         BufPlan.summaries = c11_buffer.SUMMARY_TEXT
 
     def checks(self, tier):
